@@ -52,6 +52,7 @@ type obs struct {
 	rawErr     error
 	readAhead  bool // repo HTTP client returned a connection holding read-ahead bytes
 
+	closedEarly  bool // HTTP: the server closed the connection after refused attempts instead of answering on
 	cancelDuring bool // the dial context was already cancelled when DialStream returned
 	cliGotConn   bool // DialStream returned a connection (with or without an error)
 
@@ -326,7 +327,7 @@ func start(p plan, srv netio.StreamServer, shared *clients, gated bool) *session
 			}
 			o.cliOK = o.cliErr == nil
 		case p.Proto == "socks5":
-			o.raw5 = rawSocks5(cEnd, p.Methods, p.Pres[0], p.Cmd, p.Target, p.Pushy, p.EarlyData, init)
+			o.raw5 = rawSocks5(cEnd, p.Methods, p.Pres[0], p.Cmd, p.Target, p.Pushy, p.EarlyData, init, p.Retries)
 			o.cliOK = o.raw5.Stage == "done" && o.raw5.Rep == 0 && !o.raw5.Pushed
 			if o.cliOK && p.Cmd == 1 {
 				cc = cEnd
@@ -442,8 +443,8 @@ func viol(p plan, sig, format string, args ...any) string {
 }
 
 func (p plan) describe() string {
-	return fmt.Sprintf("proto=%s peer=%s srvAuth=%v users=%v cliAuth=%v presented=%v classes=%v methods(n=%d,wantPos=%d,pushy=%v,early=%d) cancel=%q cmd=%d tcp=%v udp=%v target=%s badTarget=%q abort=%v code=%d local=%s srvPlan=%v/%v cliPlan=%v/%v glue=%v init=%d c2s=%v s2c=%v seed=%#x bufs=%d/%d writeTo=%v variant=%+v",
-		p.Proto, p.Peer, p.SrvAuth, p.Users, p.CliAuth, p.Pres, p.CredClass, len(p.Methods), p.WantPos, p.Pushy, p.EarlyData, p.Cancel, p.Cmd, p.EnableTCP, p.EnableUDP,
+	return fmt.Sprintf("proto=%s peer=%s srvAuth=%v users=%v cliAuth=%v presented=%v classes=%v methods(n=%d,wantPos=%d,pushy=%v,early=%d,retries=%d) storm=%d cancel=%q cmd=%d tcp=%v udp=%v target=%s badTarget=%q abort=%v code=%d local=%s srvPlan=%v/%v cliPlan=%v/%v glue=%v init=%d c2s=%v s2c=%v seed=%#x bufs=%d/%d writeTo=%v variant=%+v",
+		p.Proto, p.Peer, p.SrvAuth, p.Users, p.CliAuth, p.Pres, p.CredClass, len(p.Methods), p.WantPos, p.Pushy, p.EarlyData, len(p.Retries), p.Storm, p.Cancel, p.Cmd, p.EnableTCP, p.EnableUDP,
 		p.Target, p.BadTarget, p.Abort, p.Code, p.Local, p.SrvPlan, p.SrvCoalesce, p.CliPlan, p.CliCoalesce, p.Glue, p.InitPayload, p.C2S, p.S2C,
 		p.Seed, p.CliBuf, p.SrvBuf, p.CliWriteTo, p.Variant)
 }
@@ -663,6 +664,11 @@ func check(p plan, o *obs) string {
 			if o.srvErr == nil || o.srvHonoured {
 				return viol(p, "bad-target", "request-target %q was honoured (addr %v)", p.BadTarget, o.srvAddr)
 			}
+		} else if closedEarly := (len(st) < len(want) || (len(st) == len(want) && len(want) > 0 && final != 0)) && equalInts(st, want[:len(st)]) && o.srvErr != nil && !o.srvHonoured; closedEarly {
+			// The server gave up on the connection after some refused attempts instead of answering the
+			// next one: acceptable (a server MAY close at any time), as long as nothing was granted.
+			honoured, user = false, ""
+			o.closedEarly = true
 		} else if final == 0 {
 			bad = !equalInts(st, want)
 		} else {
@@ -774,6 +780,7 @@ var recHS = ev.New("C07", "handshake",
 	"rapid: protocol {socks5,http,ssnone} x peer {repo client code, harness RFC client} x server auth x user table (0..4 users, names related by prefix / shared "+
 		"password / name=password) x presented credentials (exact, other user's password, swapped, affixes, bit flip, fresh, lengths 1 and 255, all byte values, none) "+
 		"x target (IPv4, IPv6, IPv4-mapped, domain 1..255 bytes, boundary and random ports) x method list (1..255, server's method at any position or absent; the harness client optionally pushes its request after a refusal) "+
+		"x retry storms (raw HTTP: k in {1,2,5..12,16,25,40} consecutive refused CONNECTs on one connection - missing field, wrong password, unknown user, malformed token - optionally followed by a correct one; raw SOCKS5: further RFC 1929 messages after a refusal) "+
 		"x early application bytes behind the SOCKS5 request (same write / own write, before the reply) x dial-context cancellation for repo clients (before, during the k-th client write, after return) "+
 		"x command (CONNECT, UDP ASSOCIATE, unsupported) x TCP/UDP enablement x Proceed/Abort(any code) x per-direction read fragmentation x post-handshake traffic "+
 		"both ways (server-first data optionally in the same segment as the success reply). Oracle: membership in the user table, RFC 1928/1929/9110 reply tables "+
@@ -784,7 +791,8 @@ var recHS = ev.New("C07", "handshake",
 		"addr:v4", "addr:v6", "addr:mapped", "addr:domain", "dom>=64", "dom=255", "dom=1", "port=0", "port=65535",
 		"cmd:udp", "cmd:unsupported", "cmd:disabled", "method:absent", "pushy-after-refusal", "early:same-write", "early:own-write", "early:granted-stream", "ssnone:payload-with-address",
 		"ctx:before", "ctx:during-then-granted", "ctx:after-return-stream", "outcome:abort", "outcome:proceed",
-		"abort:unknown-code", "frag:midfield", "glue", "http:readahead", "http:retry-after-407", "stream:both-ways")
+		"abort:unknown-code", "frag:midfield", "glue", "http:readahead", "http:retry-after-407", "stream:both-ways",
+		"storm:k>=10", "storm:k>=25", "storm:then-correct-granted", "cred:malformed-token", "socks5:auth-retry-after-refusal")
 
 func lenClass(n int) string {
 	switch {
@@ -819,9 +827,45 @@ func classify(p plan, o *obs) (key string, nontrivial bool, labels []string) {
 		add("auth:off")
 	}
 	credKey := ""
+	if p.Storm > 0 {
+		add("storm")
+		if p.Storm >= 10 {
+			add("storm:k>=10")
+		}
+		if p.Storm >= 25 {
+			add("storm:k>=25")
+		}
+		n407 := 0
+		for _, s := range o.rawHTTP {
+			if s == 407 {
+				n407++
+			}
+		}
+		if n407 >= 10 {
+			add("storm:ten-407-on-one-connection")
+		}
+		if len(p.Pres) > p.Storm && o.srvHonoured {
+			add("storm:then-correct-granted")
+		}
+		if o.closedEarly {
+			add("storm:closed-early")
+		}
+	}
+	if len(o.raw5.Stage) > 0 && o.raw5.Retried > 0 {
+		add("socks5:auth-retry-after-refusal")
+	}
 	for i, c := range p.Pres {
 		if !p.SrvAuth {
 			break
+		}
+		if p.Storm > 0 && i < p.Storm {
+			if c.Bad {
+				add("cred:malformed-token")
+			}
+			if i == 0 {
+				credKey += fmt.Sprintf("storm%d,", p.Storm)
+			}
+			continue
 		}
 		switch {
 		case c.None:
@@ -1042,7 +1086,7 @@ func TestHandshake(t *testing.T) {
 		key, nt, labels := classify(p, o)
 		recHS.Case(key, nt, labels...)
 		if nt {
-			recHS.Sample(map[string]any{"key": key, "target": p.Target.String(), "presented": fmt.Sprint(p.Pres), "users": len(p.Users),
+			recHS.Sample(map[string]any{"key": key, "target": p.Target.String(), "presented": clip(fmt.Sprint(p.Pres), 200), "users": len(p.Users),
 				"srvPlan": p.SrvPlan, "cliPlan": p.CliPlan, "up": p.InitPayload + sum(p.C2S), "down": sum(p.S2C)})
 		}
 	})
